@@ -105,6 +105,13 @@ def source_sha(objs: List[Any]) -> Dict[str, str]:
 
     out = {}
     for o in objs:
+        if callable(o) and getattr(o, "__name__", "") == "<lambda>":
+            # drivers pass thunks so that a renamed / removed private helper does not break the check
+            try:
+                o = o()
+            except (AttributeError, ImportError, NameError) as e:
+                out[f"<unresolved: {e}>"] = "symbol missing on this tree"
+                continue
         try:
             src = inspect.getsource(o)
         except (OSError, TypeError):
